@@ -92,4 +92,12 @@ CHECKS = {
         "design_ref": "DESIGN.md section 3, C12",
         "note": "Range table transcribed from docstrings and error messages. Calibration documents are exercised by C10/C11.",
     },
+    "C08": {
+        "technique": "property-based testing: keys enumerated from generated processors (valid) and derived by mutation (invalid); full-settings snapshot before/after each assignment; harness's own literal-denotation parser as reference; every entry point exercised for invalid keys",
+        "text": "For generated processors every valid key kind (detector geometry/environment/characteristics fields, model arguments, enabled flags) is assigned values of all shapes; "
+                "the snapshot of all settings must change in exactly that key to the value the text literally denotes, get/has must agree. Mutated keys must be refused by Processor.set, "
+                "sequential and dask observations (product/sequential), and run_mode overrides before any probe model runs and without inventing attributes; sweeping an argument of a disabled model must raise. Exploration.",
+        "design_ref": "DESIGN.md section 3, C08",
+        "note": "Ambiguous textual spellings (quotes, blanks, hex, True/None) are not generated. Calibration entry point for invalid keys is exercised in C10.",
+    },
 }
